@@ -35,6 +35,10 @@ LEVEL = "model_checking"
 
 _CTX = None
 _GRAPHS = {}
+# far above what any configuration needs on the unchanged tree (quick: < 8k states, thorough: < 30k); only a
+# changed implementation that grows hidden state runs into it - the search then stops expanding new states
+# (breadth first: all short histories are done by then) and the run is reported as not exhaustive
+MAX_STATES = dict(quick=40000, thorough=150000)
 
 
 def cfg_of(n, loops, cache, dur0, pad0, profile):
@@ -102,7 +106,7 @@ def _explore_shard(items):
     graphs = {}
     for cfg, xdepth in items:
         try:
-            ex = M.Explorer(cfg, col, record_graph=xdepth > 0).run()
+            ex = M.Explorer(cfg, col, record_graph=xdepth > 0, max_states=MAX_STATES[_CTX.tier]).run()
         except world.HarnessError:
             raise
         except Exception as e:      # the real code blew up on a valid configuration / operation
@@ -114,7 +118,9 @@ def _explore_shard(items):
         col.max("depth_of_fixpoint", ex.max_depth)
         col.max("states_of_one_configuration", ex.states)
         col.inc("configurations", 1)
-        if xdepth:
+        if ex.capped:
+            col.notes.add(f"state cap {MAX_STATES[_CTX.tier]} hit: {cfg_id(cfg)}")
+        elif xdepth:
             graphs[cfg_id(cfg)] = (ex.key0, ex.graph)
     return col, graphs
 
@@ -175,6 +181,9 @@ def run(ctx):
     for col, graphs in explore.pmap(_explore_shard, items, chunks_per_proc=len(items)):
         ctx.merge(col)
         _GRAPHS.update(graphs)
+    for note in sorted(ctx.notes):
+        if note.startswith("state cap"):
+            ctx.cap(note)
     work = []
     for cfg, xdepth in items:
         if xdepth and cfg_id(cfg) in _GRAPHS:
